@@ -182,11 +182,15 @@ class IterativeAggregation(AccessorBase):
 
         if begin is not None:
             try:
-                (begin_ix,) = _index.get_indexer([begin], method=method) + 1
+                (begin_ix,) = _index.get_indexer([begin], method=method)
             except KeyError:
+                begin_ix = -1
+            # get_indexer signals a label it cannot locate with -1
+            if begin_ix < 0:
                 raise ValueError(
                     f"Value {begin} for 'begin' not found in index for dim {dim}"
                 ) from None
+            begin_ix += 1
         else:
             begin_ix = self._obj.sizes[dim]
 
@@ -194,6 +198,9 @@ class IterativeAggregation(AccessorBase):
             try:
                 (end_ix,) = _index.get_indexer([end], method=method)
             except KeyError:
+                end_ix = -1
+            # get_indexer signals a label it cannot locate with -1
+            if end_ix < 0:
                 raise ValueError(
                     f"Value {end} for 'end' not found in index for dim {dim}"
                 ) from None
